@@ -118,7 +118,28 @@ func (c *monC07) After(m *Machine, s *Step) *Violation {
 		if decodable {
 			owner, isLive = c.live[key]
 		}
-		if isLive {
+		if isLive && r.Fired != "" {
+			// the rotation met a storage failure: nothing has to succeed, but the request must not come out
+			// of it MORE authenticated than a completed rotation would have made it
+			m.flag("rotation-under-fault:" + r.Fired)
+			if r.Rec.ProbeRan && (r.Rec.ProbeName == "full" || r.Rec.ProbeName == "full2fa" || (r.Rec.ProbeUID != "" && r.Rec.ProbeFull)) {
+				return violation("C07", "failed-rotation-fully-authed:"+r.Fired, "the rotation of %q's remember cookie failed at %s, yet the request was served as %q, fully authenticated=%v, behind probe %q", owner, r.Fired, r.Rec.ProbeUID, r.Rec.ProbeFull, r.Rec.ProbeName)
+			}
+			if after != "" && r.SessAfter[authboss.SessionHalfAuthKey] != "true" {
+				return violation("C07", "failed-rotation-session-not-half:"+r.Fired, "the rotation of %q's remember cookie failed at %s, yet the session names %q without the half-auth mark", owner, r.Fired, after)
+			}
+			// the cookie stays live exactly if its token is still in storage
+			still := false
+			for _, t := range s.Post.Tokens[owner] {
+				still = still || t == storedCookieHash(key)
+			}
+			if !still {
+				delete(c.live, key)
+			}
+			if after == owner {
+				rotatedFor = owner
+			}
+		} else if isLive {
 			cls := pidClass(owner)
 			// the middleware must have consumed it: single use
 			delete(c.live, key)
@@ -145,7 +166,12 @@ func (c *monC07) After(m *Machine, s *Step) *Violation {
 				m.flag("reauth:" + cls)
 			}
 		} else {
-			if passiveOps[op.K] {
+			if passiveOps[op.K] && r.Fired != "" {
+				// the token lookup itself may have failed: the cookie can neither be honoured nor be told dead
+				if after != "" {
+					return violation("C07", "dead-cookie-authenticated:"+op.Src+"/"+op.Mut, "cookie %q (unknown/used/revoked/malformed) authenticated %q in a request whose %s call failed", oldC, after, r.Fired)
+				}
+			} else if passiveOps[op.K] {
 				if after != "" {
 					return violation("C07", "dead-cookie-authenticated:"+op.Src+"/"+op.Mut, "cookie %q (unknown/used/revoked/malformed) authenticated %q", oldC, after)
 				}
@@ -232,7 +258,7 @@ func (c *monC07) End(m *Machine) *Violation { return nil }
 
 var kindsC07 = []wk{
 	{"login", 18}, {"newsess", 16}, {"visit", 22}, {"steal", 8}, {"setcookie", 10}, {"logout", 5}, {"updpw", 3},
-	{"snip:remember", 12}, {"snip:recover", 4}, {"snip:oauth", 8}, {"snip:o2stale", 5}, {"o2start", 2}, {"o2cb", 3}, {"get", 2}, {"dropcookie", 1},
+	{"snip:remember", 12}, {"snip:recover", 4}, {"snip:oauth", 8}, {"snip:o2stale", 5}, {"o2start", 2}, {"o2cb", 3}, {"get", 2}, {"dropcookie", 1}, {"snip:rotatefault", 6},
 }
 
 var hostilePIDs = []string{"a;b@x.io", "semi;;colon@x.io", ";lead@x.io", "trail@x.io;", "oauth2;x@x.io", "plain@x.io", "unié@x.io", "x@y.io"}
